@@ -49,13 +49,17 @@ class SimLock:
             if timeout is None or timeout < 0:
                 return self._real.acquire(blocking)
             return self._real.acquire(blocking, timeout)
+        timed = blocking and timeout is not None and timeout >= 0
         while True:
             if self._real.acquire(False):
                 sched.note_lock(tid, "acquire")
                 return True
             if not blocking:
                 return False
-            sched.block(tid, self)
+            # a timed wait gives up only when nothing else in the simulation can run any more (simulated time
+            # advances only when the system is idle) - then it returns False exactly like a real timed acquire
+            if not sched.block(tid, self, timed) and timed:
+                return False
 
     def release(self) -> None:
         self._real.release()
@@ -131,6 +135,7 @@ def install_lock_seam(pkg_dir: str) -> None:
 # state survives fork); the callbacks are inert unless a Scheduler / AbortInjector is active.
 
 _instrumented: set = set()
+_seen_modules = -1
 _callbacks_registered = False
 _import_code = None
 HOOK = None  # optional callable(code, where, kind) used by single-threaded injectors (C15)
@@ -181,6 +186,16 @@ def _package_codes(pkg_dir: str) -> list:
             continue
         for v in list(vars(mod).values()):
             visit(v)
+    # functions reachable only through containers, instances or closures (lambdas in module-level tables,
+    # singledispatch handlers, decorator closures): every live function object the collector knows about
+    import gc
+
+    for obj in gc.get_objects():
+        if isinstance(obj, types.FunctionType):
+            try:
+                add_code(obj.__code__)
+            except Exception:  # noqa: BLE001
+                pass
     return out
 
 
@@ -250,9 +265,11 @@ def _on_start(code, offset):
 
 def instrument_package(pkg_dir: str, rescan: bool = False) -> int:
     """Arm local events on every not-yet-instrumented code object of the package."""
-    global _callbacks_registered, _import_code
-    if _callbacks_registered and _instrumented and not rescan:
+    global _callbacks_registered, _import_code, _seen_modules
+    nmods = sum(1 for k in sys.modules if k.startswith("schwifty"))
+    if _callbacks_registered and _instrumented and not rescan and nmods == _seen_modules:
         return 0
+    _seen_modules = nmods  # a module imported lazily outside a simulated thread (warm-up, solo run) is picked up too
     mon = sys.monitoring
     ev = mon.events
     if not _callbacks_registered:
@@ -271,9 +288,12 @@ def instrument_package(pkg_dir: str, rescan: bool = False) -> int:
         mon.set_local_events(MON_TOOL, _import_code, ev.PY_START | ev.PY_RETURN)
         _callbacks_registered = True
     n = 0
+    wanted = ev.LINE | ev.PY_RETURN | ev.PY_YIELD
+    if ACTIVE is not None and ACTIVE.opcode:
+        wanted |= ev.INSTRUCTION  # found in the middle of a bytecode-granularity run
     for code in _package_codes(pkg_dir):
         if code not in _instrumented:
-            mon.set_local_events(MON_TOOL, code, ev.LINE | ev.PY_RETURN | ev.PY_YIELD)
+            mon.set_local_events(MON_TOOL, code, wanted)
             _instrumented.add(code)
             n += 1
     return n
@@ -421,6 +441,9 @@ class Scheduler:
         self.done_gate.acquire()
         self.status = ["ready"] * nthreads
         self.blocked_on: list = [None] * nthreads
+        self.timed = [False] * nthreads
+        self.timeout_fired = [False] * nthreads
+        self.timeouts = 0
         self.ident2tid: dict[int, int] = {}
         self.current: int | None = None
         self.steps = 0
@@ -502,24 +525,46 @@ class Scheduler:
         self.lock_acquires += 1
         self.log.add(tid, "lock", what)
 
-    def block(self, tid: int, lock) -> None:
+    def _fire_timeout(self):
+        """No thread is runnable: let the lowest-numbered *timed* waiter time out (None if there is none)."""
+        for t in range(self.n):
+            if self.status[t] == "blocked" and self.timed[t]:
+                self.status[t] = "ready"
+                self.blocked_on[t] = None
+                self.timeout_fired[t] = True
+                self.timeouts += 1
+                self.log.add(t, "lock", "timeout")
+                return t
+        return None
+
+    def block(self, tid: int, lock, timed: bool = False) -> bool:
+        """Park `tid` until the lock is released (returns True: retry) or its timed wait expires (False)."""
         self.lock_blocks += 1
         self.status[tid] = "blocked"
         self.blocked_on[tid] = lock
+        self.timed[tid] = timed
+        self.timeout_fired[tid] = False
         self.log.add(tid, "lock", "blocked")
         cands = self.runnable()
         if not cands:
-            self._declare_deadlock()
-            self.gates[tid].acquire()  # parked for good; the child process exits underneath us
-            return
+            t = self._fire_timeout()
+            if t is None:
+                self._declare_deadlock()
+                self.gates[tid].acquire()  # parked for good; the child process exits underneath us
+                return True
+            if t == tid:
+                return False
+            cands = [t]
         nxt = self.policy.pick(self, cands, "block")
         self._hand_over(tid, nxt, "b", park=True)
+        return not self.timeout_fired[tid]
 
     def unblock(self, lock) -> None:
         for t in range(self.n):
             if self.status[t] == "blocked" and self.blocked_on[t] is lock:
                 self.status[t] = "ready"
                 self.blocked_on[t] = None
+                self.timeout_fired[t] = False
 
     def _declare_deadlock(self) -> None:
         self.deadlock = {
@@ -540,6 +585,10 @@ class Scheduler:
             self._hand_over(tid, nxt, "f", park=False)
             return
         if any(s == "blocked" for s in self.status):
+            t = self._fire_timeout()
+            if t is not None:
+                self._hand_over(tid, t, "f", park=False)
+                return
             self._declare_deadlock()
             return
         self._close_segment("f")
